@@ -40,6 +40,15 @@ CLAIMED = {
         "DESIGN.md §4 C14",
         "exploration",
     ),
+    "C04": (
+        "Hypothesis-generated DML histories vs table model with three-valued-logic evaluator; DDL status sweep",
+        "Generated DML histories over tables with NULLs/duplicates and 3VL predicates are compared after every statement with a "
+        "reference table model (status row, names, rowcount, target multiset, bystanders); generated valid DDL sequences are compared "
+        "with the Snowflake status message format. Exploration.",
+        "The Kleene evaluator and table model are the trusted reference (self-tested on worked examples each run).",
+        "DESIGN.md §4 C04",
+        "exploration",
+    ),
 }
 
 NOT_YET = {}
